@@ -23,3 +23,7 @@ Fixpoint indexed {A} (i : N) (l : list A) : list (N * A) :=
   match l with [] => [] | x :: r => (i, x) :: indexed (N.succ i) r end.
 Definition failing {A} (ok : A -> bool) (l : list A) : list N :=
   flat_map (fun '(i, x) => if ok x then [] else [i]) (indexed 0%N l).
+
+(** (the container has /dev/null, a masked file of /proc that exists could be read) *)
+Definition mask_ok (x : bool * bool) : bool :=
+  Bool.eqb (match mask_one (fst x) (Some PFile) with MExposed => true | _ => false end) (snd x).
